@@ -37,8 +37,12 @@ func init() {
 		Assumptions: []string{"all generated loops terminate (the VM has no step budget); a watchdog covers mis-patched jumps", "the evaluator is the reference (itself checked against the specification by C01/C09/C10/C11/C12)"},
 		TrustedBase: []string{"verif hook file pkg/bytecode/zz_verif_hooks.go (read-only views)"},
 		Run:         func(w *fw.Worker) { runBytecode(w, "C16") },
-		Replay:      func(sub string, in json.RawMessage) *fw.Violation { var d DiffInput; json.Unmarshal(in, &d); return checkC16(nil, d.Src) },
-		Watchdog:    60 * time.Second, DeadlineQuick: 5 * time.Minute, DeadlineThorough: 25 * time.Minute,
+		Replay: func(sub string, in json.RawMessage) *fw.Violation {
+			var d DiffInput
+			json.Unmarshal(in, &d)
+			return checkC16(nil, d.Src)
+		},
+		Watchdog: 60 * time.Second, DeadlineQuick: 5 * time.Minute, DeadlineThorough: 25 * time.Minute,
 		Vacuity: func(m *fw.Result) string {
 			if m.Counters["compiled"] < 5000 || m.Counters["rejected-at-compile-time"] < 100 || m.Counters["globals-compared"] < 10000 {
 				return fmt.Sprint("too few compiled / rejected programs: ", m.Counters)
@@ -50,7 +54,7 @@ func init() {
 		ID:    "C17",
 		Level: "model_checking",
 		Rule: rule + "(5) scaled programs that cross every 16-bit operand (constants, globals, jump distance, literal length at 65535/65536/65537) and nesting 1..70; (6) explicit-state BFS over all " +
-			"sequences of {Push, Pop, Define x|y|z, Resolve x|y|z} to depth 6 (quick) / 8 (thorough) on the real SymbolTable. Oracle: static verifier = explicit-state exploration of the emitted " +
+			"sequences of {Push, Pop, Define x|y|z, Resolve x|y|z} to depth 7 (quick) / 9 (thorough) on the real SymbolTable. Oracle: static verifier = explicit-state exploration of the emitted " +
 			"control-flow graph over (ip, stack height): known opcodes, operands inside the program, constant/global/local operands in range, jump targets on instruction boundaries, one " +
 			"height per reachable ip, never below the locals area, back at it at the end; dynamic: VM.Run never panics and leaves sp = LocalCount; symbol table: live locals have distinct " +
 			"slots, Resolve returns the innermost definition, every slot handed out is below the root's high-water mark. States = (ip,height) pairs + symbol-table states; transitions = CFG edges + table operations.",
@@ -125,6 +129,15 @@ var c16Fixed = []string{
 	"t := 0\nfor i := range 0 1 0\n    t = 1\nend\n",
 	"a := [1 2 3]\nt := 0\nfor e := range a\n    a[2] = 10\n    t = t + e\nend\nfor e := range a\n    a = [0]\n    t = t + e\nend\n",
 	"m := {a:1 b:2}\nt := \"\"\nfor k := range m\n    t = t + k\n    m[\"c\"] = 3\nend\n",
+	// every slice is a fresh array, also the whole-array slices
+	"x := [1 2 3]\ny := x[:]\ny[0] = 9\nz := x[0:3]\nz[1] = 8\nu := x[0:]\nu[2] = 7\nv := x[:3]\nv[0] = 6\nw := x[-3:]\nw[0] = 5\n",
+	"x := [[1] [2]]\ny := x[:]\ny[0] = [9]\nz := x[:]\nz[0][0] = 8\n",
+	// constants of different types with the same printed form are different constants
+	"n := 7\nx := \"7\"\ny := x + \"!\"\nm := n + 1\nb := true\nt := \"true\"\nu := t + \"?\"\nc := !b\nz := 0\ne := \"0\"\nf := e + e\ng := z + z\n",
+	"x := \"7\"\nn := 7\nm := n * 2\ny := x + x\nk := 1\nl := \"1\"\nj := [1 \"1\" 1.0 \"1.0\"]\nq := j[0] == j[2]\nr := j[1] == j[3]\n",
+	// locals declared after an inner block ended; many locals on several levels
+	"t := 0\nif true\n    a := 1\n    if true\n        b := 2\n        c := 3\n        t = t + b + c\n    end\n    d := 4\n    e := 5\n    f := 6\n    t = t + a + d + e + f\nend\n",
+	"func f:num p:num\n    a := p + 1\n    if a > 0\n        b := a * 2\n        if b > 0\n            c := b * 2\n            a = a + c\n        end\n        d := a + b\n        e := d + 1\n        a = e\n    end\n    g := a + 1\n    h := g + 1\n    return h\nend\nr := f 1\nr = r + (f 2)\n",
 }
 
 func c16Programs(w *fw.Worker, visit func(src string, prog *pt.Prog)) {
@@ -726,9 +739,9 @@ func runC17Extra(w *fw.Worker) {
 	if w.Shard != 0 {
 		return
 	}
-	depth := 6
+	depth := 7
 	if !w.Quick() {
-		depth = 8
+		depth = 9
 	}
 	ops := []string{"push", "pop", "def x", "def y", "def z", "res x", "res y", "res z"}
 	seen := map[string]bool{}
@@ -774,7 +787,7 @@ func symtabRun(ops []string) (key string, v *fw.Violation) {
 		return "", &fw.Violation{Sub: "symtab", Signature: "symtab:" + sig, What: what, Expected: exp, Observed: obs}
 	}
 	type scope struct {
-		names map[string]int // name -> slot
+		names  map[string]int // name -> slot
 		global bool
 	}
 	root := bytecode.NewSymbolTable()
